@@ -24,6 +24,12 @@ func (e *Env) Inherit(parent *Env) *Env {
 	return e
 }
 
+// Over returns a view of e (same bindings) whose parent is parent; e itself is not modified
+func (e *Env) Over(parent *Env) *Env {
+	util.Assert(e.parent == nil, "env.parent != nil")
+	return &Env{parent, e.ctx, e.fnTbl, e.Dgb}
+}
+
 func (e *Env) Derive() *Env {
 	return &Env{e, map[string]*Val{}, map[string]interface{}{}, e.Dgb}
 }
